@@ -20,7 +20,8 @@ BASE_ASSUMPTIONS = [
 
 
 class Profile:
-    def __init__(self, prop, oracles, variants, rule, budget, post=None, assumptions=(), wall=20, runner=None):
+    def __init__(self, prop, oracles, variants, rule, budget, post=None, assumptions=(), wall=20, runner=None,
+                 gen=None, features=None, minimiser=None):
         self.prop = prop
         self.oracles = oracles
         self.variants = variants      # list of (weight, profile dict)
@@ -31,6 +32,19 @@ class Profile:
         self.components = COMPONENTS
         self.wall = wall
         self.runner = runner
+        self.gen = gen
+        self.features_fn = features
+        self.minimiser = minimiser
+
+    def features(self, S):
+        from .gen import features
+        return self.features_fn(S) if self.features_fn else features(S)
+
+    def minimise(self, S, clause, budget_s):
+        from .minimise import minimise
+        if self.minimiser is not None:
+            return self.minimiser(S, self.run, self.prop, clause, budget_s)
+        return minimise(S, self.oracles, self.prop, clause, budget_s=budget_s, runner=self.run)
 
     def pick(self, r, tier):
         tot = sum(w for w, _ in self.variants)
@@ -143,6 +157,7 @@ def _load():
     from .oracles.c18 import C18
     from .oracles.c19 import C19, run_c19
     from .oracles.c16 import C16, run_c16
+    from . import c15
 
     wide = profile()
     faulty = profile(f_zero=0.8, f_infarr=0.3, f_batch0=0.8, qcap=0.7, sched=0.35, renege=0.4, batch=0.4)
@@ -229,6 +244,12 @@ def _load():
                      "pairs (one call vs split into 2-5 calls) of the same spec; distinct history digest of the split run; non-trivial = >=1 pause "
                      "while >=1 server was busy; runs in which two events coincide are discarded as out of domain and counted",
                      B(15000, 150000), post=force_split, runner=run_c16))
+    register(Profile("C15", [], [(1, wide)],
+                     "operation histories: prelude of other simulations (other networks, the same Network object, exact=k runs, runs aborted by an "
+                     "invalid sample), then seed(s);build;run twice (modes: repeat / re-use the Network object / two interleaved simulations of one "
+                     "Network with deterministic distributions), a fresh interpreter under another PYTHONHASHSEED on ~2% of plans; distinct = distinct "
+                     "digest of the run under test; non-trivial = non-empty prelude/between and >=10 records compared",
+                     B(8000, 80000), runner=c15.run_c15, gen=c15.gen_c15, features=c15.features15, minimiser=c15.minimise15, wall=60))
     cap = profile(qcap=0.9, qcap_vals=[INF, 0, 0, 1, 2, 3], syscap=0.4, batch=0.5, baulk=0.4, renege=0.3, jockey=0.5, n=[1, 2, 2, 3], **NOREROUTE)
     register(Profile("C06", [C06], [(1, cap)],
                      "distinct history digest; non-trivial = >=1 rejection and >=1 admission into a node holding capacity-1",
